@@ -1474,6 +1474,10 @@ def lstsq(a, b):
 
 @derived_from(np.linalg)
 def norm(x, ord=None, axis=None, keepdims=False):
+    if not np.issubdtype(x.dtype, np.inexact):
+        # like numpy: integer and boolean input is converted to float first
+        x = x.astype(float)
+
     if axis is None:
         axis = tuple(range(x.ndim))
     elif isinstance(axis, Number):
